@@ -1,5 +1,6 @@
 import ElvModel.Go.Driver
 import ElvModel.C16.Model
+import ElvModel.C16.Shape
 namespace C16
 open Go
 
@@ -12,6 +13,10 @@ open Go
 * `check <hex src> <printable>` → `CHECK P f:t… C slug@f-t… F hex…`
 * `bin <hex src> <printable>` → `BIN rc=0|2 P@f-t… slug@f-t…` (`elvish -compileonly -json -c`:
   the static check in a fresh evaler with an empty global namespace)
+
+Every op line is `SHAPE` instead if the tree the parser model returns for the source does not have
+the shape the compiler relies on (`Shape.lean`; proved impossible in `ElvProofs/C16/ParserShape3.lean`,
+evaluated here on every generated source as a cross-check of that proof's statement).
 -/
 
 /-- the driver's evaler: `rt` = the keys of `ev.modules` -/
@@ -90,6 +95,12 @@ def binLine (ev : DEv) (src : Bytes) (printable : List Int) : String :=
       ++ sp (r.compileErrors.map showCErr)
   | .crashed w => crashLine w
 
+/-- the tree the parser model returns is not a `Chunk` of the compiler's shape within the nesting bound -/
+def shapeBad (src : Bytes) (printable : List Int) : Bool :=
+  match C01.parse (fun r => printable.contains r) src with
+  | .ok t _ => !(shape t && t.kind == .chunk && decide (nest t ≤ C01.defaultFuel src))
+  | _ => false
+
 def emptyEv : DEv := { builtin := [], global := [], rt := [] }
 
 def step (ev : DEv) : List String → DEv × String
@@ -99,15 +110,15 @@ def step (ev : DEv) : List String → DEv × String
     | _, _, _ => (ev, "bad-op")
   | ["eval", hsrc, sprint] =>
     match hexDecode hsrc, parseIntList sprint with
-    | some src, some pr => evalLine ev src pr
+    | some src, some pr => if shapeBad src pr then (ev, "SHAPE") else evalLine ev src pr
     | _, _ => (ev, "bad-op")
   | ["check", hsrc, sprint] =>
     match hexDecode hsrc, parseIntList sprint with
-    | some src, some pr => (ev, checkLine ev src pr)
+    | some src, some pr => (ev, if shapeBad src pr then "SHAPE" else checkLine ev src pr)
     | _, _ => (ev, "bad-op")
   | ["bin", hsrc, sprint] =>
     match hexDecode hsrc, parseIntList sprint with
-    | some src, some pr => (ev, binLine ev src pr)
+    | some src, some pr => (ev, if shapeBad src pr then "SHAPE" else binLine ev src pr)
     | _, _ => (ev, "bad-op")
   | _ => (ev, "bad-op")
 
